@@ -151,6 +151,19 @@ def _check_pred(ctx: Ctx, name: str, over: List[str], domains, spec, what: str, 
     for p in ctx.paths(fn, inline=_inline_meta, exc_edges="none", comps_for_loops=True):
         e, c = _selecting_comp(ctx, p, over)
         if c is None:
+            # a path on which the check never looks at the states: only the documented skip is one
+            if p.kind in ("return", "fall") and not any(x.kind in ("iter", "exhaust") for x in p.events):
+                skip_ok = name == "_check_reachable_final_states" and any(
+                    _no_final_fact(expand1(b.term, p.events), b.x["taken"]) for b in p.of("branch") if b.term is not None)
+                # the trap-state check may leave machines WITH final states to the reach-final check (a sink that is not final
+                # reaches no final state; that check's own table is verified separately): same verdict, other message
+                if name == "_check_trap_states":
+                    brs = [b for b in p.of("branch") if b.term is not None]
+                    skip_ok = len(brs) == 1 and _no_final_fact(expand1(brs[0].term, p.events), not brs[0].x["taken"])
+                if not skip_ok:
+                    rep.violation("C09.pred", fn.loc(), f"{name}: the check returns without examining the states when "
+                                  + (" and ".join(f"{xshow(b.term, p.events)} is {b.x['taken']}" for b in p.of("branch")) or "called"),
+                                  fn.key, "early return before the selection")
             continue
         if not found:
             found = True
@@ -161,7 +174,29 @@ def _check_pred(ctx: Ctx, name: str, over: List[str], domains, spec, what: str, 
                               "(e.g. ignoring self-loops) instead of all of them", fn.key, norm_stmt(e.node), predicate=show(pred))
             else:
                 try:
-                    got = boolfn.table(pred, _atoms_for(t), domains)
+                    # a predicate that looks at more than the specified atoms depends on them: give those atoms a domain
+                    # too, so that the comparison of truth tables shows the dependence as a difference
+                    extra = {}
+                    for n_ in ast.walk(pred):
+                        a_ = _atoms_for(t)(n_) if isinstance(n_, (ast.Attribute, ast.Call)) else None
+                        if a_ is not None and a_ not in domains:
+                            extra[a_] = [True, False]
+                    if extra:
+                        dom2 = {**domains, **extra}
+                        names2 = sorted(dom2)
+                        got2 = boolfn.table(pred, _atoms_for(t), dom2)
+                        dep = any(got2[k1] != got2[k2] for k1 in got2 for k2 in got2
+                                  if all(k1[i] == k2[i] for i, nm in enumerate(names2) if nm in domains)
+                                  and (feasible is None or (feasible(**{nm: k1[names2.index(nm)] for nm in domains})
+                                                            and feasible(**{nm: k2[names2.index(nm)] for nm in domains}))))
+                        if dep:
+                            rep.violation("C09.pred", e.loc(), f"{name}: the selection also depends on {sorted(extra)}: {what}", fn.key,
+                                          f"selects states where: {show(pred)}")
+                            raise boolfn.Unrecognised("__handled__")
+                    got = boolfn.table(pred, _atoms_for(t), {**domains, **{k_: [True] for k_ in extra}})
+                    if extra:
+                        names3 = sorted({**domains, **extra})
+                        got = {tuple(v for v, nm in zip(k_, names3) if nm in domains): val for k_, val in got.items()}
                     want = boolfn.spec_table(spec, domains)
                     if feasible is not None:
                         names = sorted(domains)
@@ -171,8 +206,9 @@ def _check_pred(ctx: Ctx, name: str, over: List[str], domains, spec, what: str, 
                     rep.check(got == want, "C09.pred", e.loc(), f"{name}: {what}", fn.key, f"selects states where: {show(pred)}",
                               truth_table={str(k): v for k, v in got.items()}, atoms=sorted(domains))
                 except boolfn.Unrecognised as u:
-                    # a predicate that calls a helper: read the selection as the loop it abbreviates (helpers inlined)
-                    return fn, _check_pred_loop(ctx, fn, name, over, domains, spec, what, feasible)
+                    if str(u) != "__handled__":
+                        # a predicate that calls a helper: read the selection as the loop it abbreviates (helpers inlined)
+                        return fn, _check_pred_loop(ctx, fn, name, over, domains, spec, what, feasible)
         # outcome by emptiness of the selection and strictness
         ph = None
         for b in p.of("branch"):
